@@ -36,8 +36,11 @@ from ahbicht.models.mapping_results import PackageKeyConditionExpressionMapping 
 FMT = EdifactFormat.UTILMD
 VER = EdifactFormatVersion.FV2210
 
+FORMATS = [(EdifactFormat.UTILMD, EdifactFormatVersion.FV2210), (EdifactFormat.MSCONS, EdifactFormatVersion.FV2210)]
+
 REQ: ContextVar[Optional[str]] = ContextVar("sim_request_id", default=None)
 CER: ContextVar[Optional[dict]] = ContextVar("sim_content_evaluation_result", default=None)
+PEER_SET: ContextVar[int] = ContextVar("sim_peer_set_of_the_request", default=0)
 
 
 TIME_UNIT = 0.001
@@ -93,6 +96,8 @@ class Sim:
         self.fault_counts = {}
         self.fc_calls = []  # (rid, key, text)
         self.data_seen = set()  # id() of the evaluatable-data bodies that peers were handed / read
+        self.shared_violation = None  # (clause, detail) of a violation observed by a peer itself
+        self.anonymous_results = {}
         self.probes = {}
         self.sim_time = 0.0
         self.steps = 0
@@ -136,6 +141,17 @@ class Sim:
         if fault and fault.get("kind") == "raise" and fault.get("peer") == kind and fault.get("key") == key:
             self.count_fault("F2_sibling_raise")
             raise InjectedFault(f"injected failure of {kind} {key} for {REQ.get()}")
+
+    def check_peer_set(self, index, kind, key):
+        """the peers registered for another format / format version must never serve this request"""
+        if index != PEER_SET.get():
+            self.probe("foreign_peer_set_calls")
+            if self.shared_violation is None:
+                self.shared_violation = (
+                    "isolation:foreign-format-peers",
+                    f"{REQ.get()} (format {FORMATS[PEER_SET.get()][0]}) was served by the {kind} peer registered for "
+                    f"{FORMATS[index][0]} (key {key})",
+                )
 
     def touch(self, kind, key):
         """a synchronous peer call: cannot yield, is logged"""
@@ -191,6 +207,12 @@ class Sim:
             entry = CER.get()["format_constraints"][key]
         except KeyError as key_error:
             raise NotImplementedError(f"No result was provided for {key}.") from key_error
+        if world.get("fc_anonymous"):
+            # a user evaluator that answers with two module-level constants (no message of its own)
+            fulfilled = entry["format_constraint_fulfilled"]
+            if fulfilled not in self.anonymous_results:
+                self.anonymous_results[fulfilled] = EvaluatedFormatConstraint(fulfilled, None)
+            return self.anonymous_results[fulfilled]
         return EvaluatedFormatConstraint(entry["format_constraint_fulfilled"], entry.get("error_message"))
 
     @staticmethod
@@ -204,41 +226,74 @@ class Sim:
 
 def evaluatable_data_provider():
     """what `inject.params(evaluatable_data=EvaluatableDataProvider)` calls - in the context of the calling task"""
-    return EvaluatableData(body=CER.get(), edifact_format=FMT, edifact_format_version=VER)
+    edifact_format, version = FORMATS[PEER_SET.get()]
+    return EvaluatableData(body=CER.get(), edifact_format=edifact_format, edifact_format_version=version)
+
+
+def _flip(value):
+    if value == ConditionFulfilledValue.FULFILLED:
+        return ConditionFulfilledValue.UNFULFILLED
+    return ConditionFulfilledValue.FULFILLED
 
 
 # ---------------------------------------------------------------------------------------------------------- peers
-def _make_rc_evaluator(sim, keys, sync_keys):
-    namespace = {"_get_default_context": lambda self: None}
+def _make_rc_evaluator(sim, keys, sync_keys, index=0):
+    from ahbicht.content_evaluation.evaluationdatatypes import EvaluationContext
+
+    # every call gets a default context of its own (that is what the base class asks this method for)
+    namespace = {"_get_default_context": lambda self: EvaluationContext(scope=None)}
     for key in keys:
         if key in sync_keys:
 
             def method(self, evaluatable_data, context, _key=key):  # pylint:disable=unused-argument
+                sim.check_peer_set(index, "rc", _key)
                 sim.touch("rc", _key)
                 return sim.rc_value(_key, evaluatable_data, context)
 
         else:
 
             async def method(self, evaluatable_data, context, _key=key):  # pylint:disable=unused-argument
+                sim.check_peer_set(index, "rc", _key)
+                token = None
+                if context is not None and context.scope not in ("FULFILLED", "UNFULFILLED", "UNKNOWN"):
+                    # like a user evaluator that narrows the scope of *its* default context, awaits, and reads it again
+                    sim.scope_tokens = getattr(sim, "scope_tokens", 0) + 1
+                    token = f"{REQ.get()}/{_key}/#{sim.scope_tokens}"
+                    context.scope = token
                 await sim.pause("rc", _key)
-                return sim.rc_value(_key, evaluatable_data, context)
+                value = sim.rc_value(_key, evaluatable_data, context)
+                if token is not None:
+                    if context.scope != token:
+                        sim.probe("default_context_clobbered")
+                        if sim.shared_violation is None:
+                            sim.shared_violation = (
+                                "isolation:evaluation-context",
+                                f"{REQ.get()}: the default evaluation context handed to evaluate_{_key} was written by "
+                                f"another evaluation while this one was awaiting ({context.scope!r} instead of "
+                                f"{token!r})",
+                            )
+                        value = _flip(value)  # what the evaluator computes from a foreign scope is something else
+                    context.scope = None
+                return value
 
         namespace[f"evaluate_{key}"] = method
     return type("SimRcEvaluator", (RcEvaluator,), namespace)()
 
 
-def _make_fc_evaluator(sim, keys, sync_keys):
+def _make_fc_evaluator(sim, keys, sync_keys, index=0):
     namespace = {}
     for key in keys:
         if key in sync_keys:
 
             def method(self, entered_input, _key=key):
+                sim.check_peer_set(index, "fc", _key)
                 sim.touch("fc", _key)
                 return sim.fc_value(_key, entered_input)
 
         else:
 
             async def method(self, entered_input, _key=key):
+                sim.check_peer_set(index, "fc", _key)
                 await sim.pause("fc", _key)
                 return sim.fc_value(_key, entered_input)
 
@@ -246,11 +301,12 @@ def _make_fc_evaluator(sim, keys, sync_keys):
     return type("SimFcEvaluator", (FcEvaluator,), namespace)()
 
 
-def _make_hints_provider(sim, sync):
+def _make_hints_provider(sim, sync, index=0):
     if sync:
 
         class SimHintsProvider(HintsProvider):
             def get_hint_text(self, condition_key):  # pylint:disable=invalid-overridden-method
+                sim.check_peer_set(index, "hint", condition_key)
                 sim.touch("hint", condition_key)
                 return sim.hint_value(condition_key)
 
@@ -258,15 +314,17 @@ def _make_hints_provider(sim, sync):
 
         class SimHintsProvider(HintsProvider):
             async def get_hint_text(self, condition_key):
+                sim.check_peer_set(index, "hint", condition_key)
                 await sim.pause("hint", condition_key)
                 return sim.hint_value(condition_key)
 
     return SimHintsProvider()
 
 
-def _make_package_resolver(sim):
+def _make_package_resolver(sim, index=0):
     class SimPackageResolver(PackageResolver):
         async def get_condition_expression(self, package_key):
+            sim.check_peer_set(index, "pkg", package_key)
             await sim.pause("pkg", package_key)
             return PackageKeyConditionExpressionMapping(
                 package_key=package_key, package_expression=sim.package_value(package_key), edifact_format=FMT
@@ -304,25 +362,31 @@ def _make_cer_peers(sim):
 def install_world(sim):
     """builds the peers described by scenario['world'] and configures the (process global) injector"""
     world = sim.scenario.get("world", {})
+    peer_sets = []
     if world.get("flavour", "sim") == "cer":
-        peers = _make_cer_peers(sim)
+        peer_sets.append(_make_cer_peers(sim))
     else:
-        peers = [
-            _make_rc_evaluator(sim, world.get("rc_keys", []), set(world.get("sync_rc", []))),
-            _make_fc_evaluator(sim, world.get("fc_keys", []), set(world.get("sync_fc", []))),
-            _make_hints_provider(sim, bool(world.get("hints_sync", False))),
-            _make_package_resolver(sim),
-        ]
-    for peer in peers:
-        peer.edifact_format = FMT
-        peer.edifact_format_version = VER
+        # one set of peers per (format, format version) the process serves; a request belongs to exactly one of them
+        for index in range(2 if world.get("two_formats") else 1):
+            peer_sets.append(
+                [
+                    _make_rc_evaluator(sim, world.get("rc_keys", []), set(world.get("sync_rc", [])), index),
+                    _make_fc_evaluator(sim, world.get("fc_keys", []), set(world.get("sync_fc", [])), index),
+                    _make_hints_provider(sim, bool(world.get("hints_sync", False)), index),
+                    _make_package_resolver(sim, index),
+                ]
+            )
+    for index, peers in enumerate(peer_sets):
+        for peer in peers:
+            peer.edifact_format, peer.edifact_format_version = FORMATS[index]
 
     def configure(binder):
-        binder.bind(TokenLogicProvider, SingletonTokenLogicProvider(peers))
+        binder.bind(TokenLogicProvider, SingletonTokenLogicProvider([p for peers in peer_sets for p in peers]))
         binder.bind_to_provider(EvaluatableDataProvider, evaluatable_data_provider)
 
     inject.clear_and_configure(configure)
-    return peers
+    sim.peer_sets = peer_sets
+    return peer_sets[0]
 
 
 # -------------------------------------------------------------------------------------------------------- running
@@ -349,6 +413,7 @@ def run_requests(scenario, do_op, step_cap=200_000):
         rid = request["rid"]
         REQ.set(rid)
         CER.set(request.get("cer"))
+        PEER_SET.set(int(request.get("peer_set", 0)))
         try:
             if request.get("start"):
                 await asyncio.sleep(request["start"] * TIME_UNIT)
